@@ -420,7 +420,10 @@ class Interp:
                     self.path.trace.append(("del", k, None))
         elif isinstance(st, (ast.Assert, ast.Import, ast.ImportFrom, ast.Global, ast.Nonlocal)):
             pass
-        elif isinstance(st, (ast.FunctionDef, ast.ClassDef)):
+        elif isinstance(st, ast.FunctionDef):
+            # a local helper (e.g. a sort key): callable by name from the enclosing body
+            frame[st.name] = _Closure(st, frame, self)
+        elif isinstance(st, ast.ClassDef):
             pass
         else:
             raise Undecidable(f"unsupported statement {type(st).__name__} at line {st.lineno}")
@@ -985,8 +988,17 @@ class _Closure:
 
     def __call__(self, *args):
         inner = dict(self.frame)
-        for a, v in zip(self.node.args.args, args):
+        params = self.node.args.args
+        for a, d in zip(params[len(params) - len(self.node.args.defaults):], self.node.args.defaults):
+            inner[a.arg] = self.interp.eval(d, self.frame)
+        for a, v in zip(params, args):
             inner[a.arg] = v
+        if isinstance(self.node, ast.FunctionDef):
+            try:
+                self.interp.exec_block(self.node.body, inner)
+            except _Return as r:
+                return r.v
+            return None
         return self.interp.eval(self.node.body, inner)
 
     def __deepcopy__(self, memo):
